@@ -203,7 +203,10 @@ fn errkind(value: &Value, kwargs: Kwargs, state: &State) -> tera::TeraResult<Val
     ))
 }
 
+static DELIMS_REJECTED: std::sync::atomic::AtomicBool = std::sync::atomic::AtomicBool::new(false);
+
 fn build_tera(cfg: Option<&J>) -> Result<Tera, String> {
+    DELIMS_REJECTED.store(false, std::sync::atomic::Ordering::SeqCst);
     let mut t = Tera::default();
     let empty = json!({});
     let cfg = cfg.unwrap_or(&empty);
@@ -248,7 +251,16 @@ fn build_tera(cfg: Option<&J>) -> Result<Tera, String> {
             comment_start: leak(&d[4]).into(),
             comment_end: leak(&d[5]).into(),
         })
-        .map_err(|e| format!("{e}"))?;
+        .map_err(|e| format!("{e}"))
+        .or_else(|e| {
+            // "delims_soft": a refused call is an ordinary event; the instance goes on being used (with what it had before)
+            if cfg.get("delims_soft").and_then(|x| x.as_bool()).unwrap_or(false) {
+                DELIMS_REJECTED.store(true, std::sync::atomic::Ordering::SeqCst);
+                Ok(())
+            } else {
+                Err(e)
+            }
+        })?;
     }
     if let Some(p) = cfg.get("prefixes") {
         t.set_fallback_prefixes(
@@ -284,6 +296,22 @@ fn build_tera(cfg: Option<&J>) -> Result<Tera, String> {
         if esc == Some("brackets-then-reset") {
             t.reset_escape_fn();
         }
+    }
+    if cfg.get("register_from").and_then(|x| x.as_bool()).unwrap_or(false) {
+        // another instance whose callables carry the names of built-ins (and one new name each): register_from imports only
+        // what this instance does not have yet
+        let mut other = Tera::default();
+        other.register_filter("upper", |_: &str, _: Kwargs, _: &State| -> tera::TeraResult<Value> { Ok(Value::from("OTHER")) });
+        other.register_filter("length", |_: &Value, _: Kwargs, _: &State| -> tera::TeraResult<Value> { Ok(Value::from(-1)) });
+        other.register_filter("imported_f", |_: &Value, _: Kwargs, _: &State| -> tera::TeraResult<Value> { Ok(Value::from("IF")) });
+        other.register_test("integer", |_: &Value, _: Kwargs, _: &State| -> tera::TeraResult<bool> { Ok(true) });
+        other.register_test("odd", |_: &Value, _: Kwargs, _: &State| -> tera::TeraResult<bool> { Ok(true) });
+        other.register_test("string", |_: &Value, _: Kwargs, _: &State| -> tera::TeraResult<bool> { Ok(false) });
+        other.register_test("upper", |_: &Value, _: Kwargs, _: &State| -> tera::TeraResult<bool> { Ok(true) });
+        other.register_test("imported_t", |_: &Value, _: Kwargs, _: &State| -> tera::TeraResult<bool> { Ok(true) });
+        other.register_function("range", |_: Kwargs, _: &State| -> tera::TeraResult<Value> { Ok(Value::from("OTHER")) });
+        other.register_function("imported_fn", |_: Kwargs, _: &State| -> tera::TeraResult<Value> { Ok(Value::from("IFN")) });
+        t.register_from(&other);
     }
     if let Some(g) = cfg.get("gctx") {
         for (k, v) in g.as_object().unwrap() {
@@ -526,6 +554,7 @@ fn run_step(
             j["gauge"] = json!(tera::verif::depth_max());
             j
         }
+        "delims_state" => json!({"ok": true, "rejected": DELIMS_REJECTED.load(std::sync::atomic::Ordering::SeqCst)}),
         "valops" => valops::run(step),
         "threads" => {
             // renders from several threads sharing one &Tera; only compiles if the types are Send + Sync
